@@ -114,6 +114,16 @@ theorem fw_call {ty : Ty} {f : Expr} {args : List Expr} (hL : FWL P (f :: args))
     (fun _ _ _ h _ => ev_call_ops.1 h)
     (fun _ _ _ _ h => ev_call_ops.2 h)
 
+theorem fw_dynCall {tr m : String} {ty : Ty} {recv : Expr} {args : List Expr} (hL : FWL P (recv :: args)) :
+    FW P (.dynCall tr m ty recv args) :=
+  fw_ops P (mk := fun cs => match cs with | ri :: is => .dynCall tr m ty ri is | [] => .prim .unit)
+    (H := dynH P tr m) hL
+    (fun n => ⟨rfl, rfl, rfl⟩)
+    (fun D n N hy => ⟨by simpa [frag, fragList] using hy.frag, by simpa [names, namesList] using hy.dis,
+      by simpa [names, namesList] using hy.fresh, hy.bound⟩)
+    (fun _ _ _ h hs => dyn_src_fw h hs)
+    (fun n _ _ _ h => (dyn_tgt (decImm_c_atom recv n) (decList_cs_atoms args _)).2 h)
+
 theorem fw_bin_plain {op : BinOp} {ty : Ty} {l r : Expr}
     (hc : ((op == .and || op == .or) && !isAtom r) = false) (hL : FWL P [l, r]) : FW P (.bin op ty l r) := by
   have hcase : isAtom r = true ∨ (op ≠ .and ∧ op ≠ .or) := by
@@ -450,7 +460,7 @@ theorem fw : ∀ (e : Expr), FW P e
     · exact fw_bin_lowered P hc (fw l) (fw r)
   | .call ty f args => fw_call P (fwL_cons P (fw_imm P (fw f)) (fwL args))
   | .toDyn tr forTy ty e => fw_toDyn P (fw e)
-  | .dynCall tr m ty recv args => fun _ _ _ _ _ _ _ hy => by have := hy.frag; simp [frag] at this
+  | .dynCall tr m ty recv args => fw_dynCall P (fwL_cons P (fw_imm P (fw recv)) (fwL args))
   | .proj idx ty e => fw_proj P (fw e)
 theorem fwL : ∀ (es : List Expr), FWL P es
   | [] => fwL_nil P
